@@ -271,7 +271,10 @@ type enumCase struct {
 	// Sweep: 130 further files exist, and a third client looks at all of them while client 0 is held (the cached
 	// copies of the inodes client 0 works on are pushed out of the inode cache meanwhile)
 	Sweep bool
-	Pre   []cOp
+	// Cold: the server is restarted before the two clients start (nothing is cached); DiskPause: client 0 is held
+	// at its Hook-th access to the device instead of its Hook-th lock/commit/abort point
+	Cold, DiskPause bool
+	Pre             []cOp
 	Op0       cOp
 	Prog1     []cOp
 	Hook      int
@@ -384,6 +387,33 @@ func enumSpace() []enumCase {
 			}
 		}
 	}
+	// READDIRPLUS of a directory whose entry "a" (numbered below the directory) is being changed by a SETATTR that
+	// sets size and mtime together: the listing shows the file before or after, never half of it.  (Only requests
+	// on the file itself run next to the listing: a request that locks the directory would meet known finding KF1.)
+	plusD := cOp{Kind: "readdirplus", Dir: D}
+	sm := func(size uint64, mt uint32) cOp { return cOp{Kind: "setattrhm", Size: size, Cnt: mt} }
+	for pre := 0; pre < 2; pre++ {
+		p := []cOp{{Kind: "create", Dir: D, Name: "a"}}
+		if pre == 1 {
+			p = append(p, cOp{Kind: "create", Dir: D, Name: "b"})
+		}
+		for _, op0 := range []cOp{sm(100, 7777), sm(0, 7777), sm(5000, 7777), sm(3*4096, 7777)} {
+			for _, prog := range [][]cOp{{plusD}, {plusD, {Kind: "getattrh"}}} {
+				for hook := 0; hook < 4; hook++ {
+					cases = append(cases, enumCase{HFile: true, Pre: p, Op0: op0, Prog1: prog, Hook: hook})
+				}
+				for hook := 0; hook < 10; hook++ {
+					cases = append(cases, enumCase{HFile: true, Cold: true, DiskPause: true, Pre: p, Op0: op0, Prog1: prog, Hook: hook})
+				}
+			}
+		}
+		for _, prog := range [][]cOp{{sm(100, 7777)}, {sm(100, 7777), sm(5000, 8888)}, {sm(0, 7777)}, {{Kind: "writeh", Off: 0, Data: string(patternData(41, 100)), Stable: 2}, sm(100, 7777)}} {
+			for hook := 0; hook < 10; hook++ {
+				cases = append(cases, enumCase{HFile: true, Pre: p, Op0: plusD, Prog1: prog, Hook: hook})
+				cases = append(cases, enumCase{HFile: true, Cold: true, DiskPause: true, Pre: p, Op0: plusD, Prog1: prog, Hook: hook})
+			}
+		}
+	}
 	// a file reached through its handle while its name is removed, replaced or moved
 	wh := func(off uint64, n int, tag uint32) cOp {
 		return cOp{Kind: "writeh", Off: off, Data: string(patternData(tag, uint64(n))), Stable: 2}
@@ -458,7 +488,7 @@ func enumLin(t *testing.T, prop string, filter func(enumCase) bool) {
 		if !Thorough() && Hash(seed, i)%4 != 0 && !ec.HalfFreed && !ec.Sweep {
 			continue
 		}
-		if only := os.Getenv("VERIF_ENUM_ONLY"); only == "sweep" && !ec.Sweep {
+		if only := os.Getenv("VERIF_ENUM_ONLY"); (only == "sweep" && !ec.Sweep) || (only == "plus" && ec.Op0.Kind != "readdirplus" && ec.Op0.Kind != "setattrhm") {
 			continue // (debugging aid: one family of cases)
 		}
 		size := uint64(9000)
@@ -512,18 +542,22 @@ func enumLin(t *testing.T, prop string, filter func(enumCase) bool) {
 		prog1 := append([]cOp{}, ec.Prog1...)
 		for k := range prog1 {
 			prog1[k].MayFail = ec.FullDisk
-			if strings.HasSuffix(prog1[k].Kind, "h") {
+			if strings.HasSuffix(prog1[k].Kind, "h") || prog1[k].Kind == "setattrhm" {
 				prog1[k].H = hfile
 			}
 		}
-		if strings.HasSuffix(op0.Kind, "h") {
+		if strings.HasSuffix(op0.Kind, "h") || op0.Kind == "setattrhm" {
 			op0.H = hfile
+		}
+		if ec.Cold {
+			w.S.Restart()
+			api = w.S.API()
 		}
 		progs := [][]cOp{{op0}, prog1}
 		if ec.Sweep {
 			progs = append(progs, []cOp{{Kind: "sweep"}})
 		}
-		pause := &pauseSpec{Client: 0, Hook: ec.Hook, MaxWait: 20 * time.Millisecond}
+		pause := &pauseSpec{Client: 0, Hook: ec.Hook, MaxWait: 20 * time.Millisecond, Disk: ec.DiskPause}
 		r := w.runConcurrentFrom(progs, 0, false, 10*time.Second, pause, clock)
 		all := append(ops, r.Ops...)
 		cc := concCase{Unstable: true, LowChildren: true, Progs: progs, Pause: pause}
